@@ -12,11 +12,14 @@ from harness.util import vec, stack, guarded, first_failures
 ID = 'C03'
 LEVEL = 'proof'
 PROPERTY_MODULES = ['PanqecVerif.Properties.C03', 'PanqecVerif.Properties.C03Rank',
-                    'PanqecVerif.Properties.C03BSparse']
+                    'PanqecVerif.Properties.C03BSparse', 'PanqecVerif.Properties.C03Utils']
 LEVEL_TEXT = ('Lean theorems for every vector length, every vector and every dtype path of bs_prod '
               '(uint8 wrap at any overlap, wide integers, csr): result = GF(2) symplectic form; symmetric, '
               'alternating, bilinear; syndrome linear; string/BSF/integer/weight converters mutually inverse. '
-              'Unbounded quantifiers are proved, the model is tied to bpauli.py by differential runs.')
+              'Unbounded quantifiers are proved, the model is tied to bpauli.py by differential runs. '
+              'The sparse helpers of bsparse.py (all 14 functions, csr modelled as stored entries in storage order) and the pure '
+              'integer/list helpers of utils.py have their own model, streams and theorems (insert_mod2 toggles exactly one bit, '
+              'dot = GF(2) inner product on binary rows, equal iff equal dense value, hsplit(hstack) round trip, stack/convert semantics).')
 LEVEL_NOTE = ('trusted: Lean kernel + standard axioms; correspondence harness; numpy/scipy integer dot semantics '
               '(wrap modulo 256 for 8-bit dtypes) as modelled in Model/Bits.lean; gf2_rank/brank are proved to compute the GF(2) rank (Properties/C03Rank.lean, via Mathlib finrank)')
 TECHNIQUE = 'Lean 4 proof (induction over lists, omega) + differential correspondence with the compiled model driver'
